@@ -300,6 +300,14 @@ func VH_C08_Big() {
 	}
 	want := s + "|" + s + "x|" + s + "|" + s + "|" + s + "|" + s + "|true|true|true|true|" + s + "," + s + "|true|true|" + s + "|" + s + "|" + s + "|" + abs + "|" + s + "|" + s
 	symAssert(out == want, "whole-results-are-integers-everywhere")
+	// a neighbouring integer is a different number, under every comparison and membership operator
+	b := a - 1
+	if b < -9007199254740991 {
+		b = a + 1
+	}
+	out2, err2 := vhR("{{ a == b }}|{{ a != b }}|{{ a in [b] }}|{{ a not in [b] }}|{{ b == a }}|{{ (a * 1) == (b * 1) }}|{{ (a + 0) != (b + 0) }}|{% if a == b %}eq{% else %}ne{% endif %}|{{ a == b ? 'eq' : 'ne' }}|{{ [a, b]|length }}{{ a in [b, 0] ? 'in' : 'out' }}",
+		map[string]interface{}{"a": a, "b": b})
+	symAssert(err2 == nil && out2 == "false|true|false|true|false|false|true|ne|ne|2out", "adjacent-integers-are-different-numbers")
 }
 
 // ---- C08.calls: arguments of a call are evaluated once each and stay what they were ------------------
